@@ -77,11 +77,13 @@ theorem program_refines {α : Type} [RealOps α] (D : Dims) (hD : DPos D) (T : T
   (runProg_refines D hD T s0 hw P).1
 
 /-- … hence everything the public API shows (accept/reject, final ACTNUM, for every keyword
-validity, active cells with status, global copy) is the same under both semantics. -/
+validity, active cells with status, `get_global`) is the same under both semantics.  This is
+the function the correspondence driver evaluates; it includes the separate global storage the
+code keeps for `global` keywords (PERMX/Y/Z, MULTZ, MULTZ-), which both semantics share. -/
 theorem observable_result_refines {α : Type} [RealOps α] (D : Dims) (hD : DPos D) (T : Tables α)
     (A : List Bool) (hA : A.length = D.size) (P : Prog α) :
-    runObserve .ref D T A P = runObserve .impl D T A P :=
-  runObserve_refines D hD T A hA P
+    runObserveG .ref D T A P = runObserveG .impl D T A P :=
+  runObserveG_refines D hD T A hA P
 
 /-- `inactive_independence` for one operation (any kernel, any selection): the same operation on
 the same global contents under two ACTNUMs leaves the same content in every cell active in both. -/
@@ -185,7 +187,7 @@ instance : RealOps Int where
   isZero := fun a => decide (a = 0)
 
 def sampleT : Tables Int :=
-  ⟨[("PORO", ⟨none, false, true, false, 1, 0, false⟩), ("NTG", ⟨some 1, false, false, false, 1, 0, false⟩)],
+  ⟨[("PORO", ⟨none, false, true, true, 1, 0, false⟩), ("NTG", ⟨some 1, false, false, false, 1, 0, false⟩)],
    [("ACTNUM", some 1), ("SATNUM", some 1), ("FLUXNUM", none)]⟩
 
 def noBox : BoxItems := ⟨none, none, none, none, none, none⟩
@@ -200,8 +202,8 @@ def sampleP : Prog Int :=
     solution := [] }
 
 -- both semantics accept the sample program and show the same result
-example : (runObserve .impl sampleD sampleT sampleA sampleP).isSome = true := by decide +kernel
-example : runObserve .ref sampleD sampleT sampleA sampleP = runObserve .impl sampleD sampleT sampleA sampleP := by
+example : (runObserveG .impl sampleD sampleT sampleA sampleP).isSome = true := by decide +kernel
+example : runObserveG .ref sampleD sampleT sampleA sampleP = runObserveG .impl sampleD sampleT sampleA sampleP := by
   decide +kernel
 
 /-! ### Finding 2 in the model: "distribute top layer" makes an active cell depend on whether
